@@ -1,6 +1,7 @@
 package main
 
 import (
+	"math"
 	"math/big"
 )
 
@@ -214,7 +215,61 @@ func propC17(g *G, n int) {
 	}
 }
 
+// powBoundary aims x**y at the places where the result's decimal exponent crosses a limit of the format
+// or of the int16 exponent of the 57-digit working format (E·ln 10 = y·ln x for the listed E ± a little).
+func (g *G) powBoundary() (dec, dec) {
+	es := []float64{6111, 6144, 6145, 6146, -6176, -6177, -6178, -6211, 6200, 12287, 16383, 32767 - 116, 32767 - 58, 32767, 32768 + 58, 65535, 65536, -32768, -32768 - 58, 131072, 262144}
+	E := es[g.pick(len(es))] + float64(g.pick(161)-80) + g.r.Float64()
+	if g.chance(0.5) { // power-of-ten base: exact shortcut, integer exponent
+		k := 1 + g.pick(6)
+		if g.chance(0.3) {
+			k = 1 + g.pick(40)
+		}
+		y := int64(math.Abs(E))/int64(k) + int64(g.pick(3)-1)
+		if y < 0 {
+			y = 0
+		}
+		if E < 0 {
+			k = -k
+		}
+		z := g.pick(3) // cohort member of the base
+		return mk(false, int64([]int{1, 10, 100}[z]), k-z), mk(false, y+int64(g.pick(3)-1), 0)
+	}
+	var x float64
+	var xd dec
+	switch g.pick(3) {
+	case 0:
+		c := int64(2 + g.pick(98))
+		e := g.pick(7) - 3
+		x, xd = float64(c)*math.Pow(10, float64(e)), mk(false, c, e)
+	case 1:
+		c := int64(1001 + g.pick(8999))
+		x, xd = float64(c)/1000, mk(false, c, -3)
+	default:
+		c := int64(1 + g.pick(999))
+		x, xd = float64(c)/1000, mk(false, c, -3)
+	}
+	if x == 1 {
+		x, xd = 2, mk(false, 2, 0)
+	}
+	y := E * math.Ln10 / math.Log(x)
+	neg := y < 0
+	if neg {
+		y = -y
+	}
+	if y > 9e17 {
+		y = 9e17
+	}
+	if g.chance(0.5) || y > 1e15 {
+		return xd, mk(neg, int64(y), 0)
+	}
+	return xd, mk(neg, int64(y*1000), -3)
+}
+
 func (g *G) powPair() (dec, dec) {
+	if g.chance(0.2) {
+		return g.powBoundary()
+	}
 	switch g.pick(10) {
 	case 0: // powers of ten with integer exponents
 		return mk(g.chance(0.2), 1, g.pick(41)-20), mk(g.chance(0.3), int64(g.pick(700)), g.pick(2))
